@@ -48,8 +48,13 @@ def scenario(rng, sid, focus, big=False):
     sc["restart"] = focus in ("C13", "mix") and rng.random() < 0.3      # the same App started a second time, without components
     for r_ in sc["loaders"] + sc["procs"]:
         r_["zero"] = rng.random() < 0.3      # the first marked unordered loader / processor is realised by a field-less type
+    for c_ in sc["closers"]:
+        c_["lazy"] = (not c_.get("zero")) and rng.random() < 0.3      # a LazyInit closer: only the App's own closer slice asks for it
     for r_ in sc["runners"]:
-        r_["zero"] = rng.random() < 0.3      # realised by a field-less runner type (at most one per class; the harness falls back otherwise)
+        # an Order() that settles during start-up (decoy until the last plain component is initialised, after the App)
+        r_["dyn"] = r_["cls"] in ("ord", "prio") and sc["comps"] >= 1 and rng.random() < 0.3
+    for r_ in sc["runners"]:
+        r_["zero"] = (not r_.get("dyn")) and rng.random() < 0.3      # realised by a field-less runner type (at most one per class; the harness falls back otherwise)
     for i, ld in enumerate(sc["loaders"]):
         ld["doc"] = "k%d: %d\n" % (i, i)
     return sc
